@@ -58,7 +58,7 @@ Theorem step_frame : forall w o d,
 Proof.
   intros w o d L N.
   destruct o as [ |c p u|c u|c x|t x|c k i attrs|c f i args other|[c i] attrs|[c i] s e|[c i] v
-                 |c r|c o|t src x order|t|t|c|c x|c cls|a b|a b|t|jt| ];
+                 |c r|c o|t src x order|t|t|c|c x|c cls|a b|a b|t|jt|t| ];
     cbn [step target cref_doc] in *; unfold with_cont; cbn [fst snd wdocs].
   all: frame_step.
 Qed.
@@ -90,7 +90,7 @@ Theorem step_length : forall w o, length (wdocs w) <= length (wdocs (fst (step w
 Proof.
   intros w o.
   destruct o as [ |c p u|c u|c x|t x|c k i attrs|c f i args other|[c i] attrs|[c i] s e|[c i] v
-                 |c r|c o|t src x order|t|t|c|c x|c cls|a b|a b|t|jt| ];
+                 |c r|c o|t src x order|t|t|c|c x|c cls|a b|a b|t|jt|t| ];
     cbn [step]; unfold with_cont; cbn [fst snd wdocs].
   all: length_step.
 Qed.
@@ -145,7 +145,7 @@ Theorem step_coherent : forall w o, WCoh w -> WCoh (fst (step w o)).
 Proof.
   intros w o W.
   destruct o as [ |c p u|c u|c x|t x|c k i attrs|c f i args other|[c i] attrs|[c i] s e|[c i] v
-                 |c r|c o|t src x order|t|t|c|c x|c cls|a b|a b|t|jt| ];
+                 |c r|c o|t src x order|t|t|c|c x|c cls|a b|a b|t|jt|t| ];
     cbn [step]; unfold with_cont; cbn [fst snd].
   all: coh_step.
 Qed.
@@ -377,7 +377,7 @@ Theorem step_uniq : forall w o, WUniq w -> WUniq (fst (step w o)).
 Proof.
   intros w o W.
   destruct o as [ |c p u|c u|c x|t x|c k i attrs|c f i args other|[c i] attrs|[c i] s e|[c i] v
-                 |c r|c o|t src x order|t|t|c|c x|c cls|a b|a b|t|jt| ];
+                 |c r|c o|t src x order|t|t|c|c x|c cls|a b|a b|t|jt|t| ];
     cbn [step]; unfold with_cont; cbn [fst snd].
   all: repeat (match goal with
           | |- context [match ?x with _ => _ end] => destruct x eqn:?
